@@ -211,9 +211,9 @@ def h06d_pre(l0, l1, prefix_ok, relative):
 
 
 def h06d_shards(tier):
-    out = [{"pred": False, "nlabels": k, "shape": None, "_timeout": 400, "_path_timeout": 60} for k in (0, 1)]
-    for shape in [(1, 1), (63, 63), (1, 63), (63, 1), (62, 1)] + ([(2, 2), (62, 63), (63, 62)] if tier == "thorough" else []):
-        out.append({"pred": False, "nlabels": 2, "shape": shape, "_timeout": 400, "_path_timeout": 60})
+    out = [{"pred": False, "nlabels": k, "shape": None, "_timeout": 900, "_path_timeout": 60} for k in (0, 1)]
+    for shape in [(1, 1), (1, 63), (63, 1), (62, 1)] + ([(2, 2), (63, 63), (62, 63), (63, 62)] if tier == "thorough" else []):
+        out.append({"pred": False, "nlabels": 2, "shape": shape, "_timeout": 900 if tier == "quick" else 3600, "_path_timeout": 60})
     out.append({"pred": True, "nlabels": 0, "shape": None, "_timeout": 100, "_path_timeout": 60})
     shapes = [(1,), (2,), (63,), (62,), (1, 1), (63, 63), (1, 63), (63, 1)]
     if tier == "thorough":
@@ -242,6 +242,6 @@ HARNESSES = [
             encodes=["dns.name.Name.successor", "dns.name.Name.predecessor", "dns.name._absolute_successor",
                      "dns.name._absolute_predecessor", "dns.name._pad_to_max_name", "dns.name._pad_to_max_label",
                      "dns.name._handle_relativity_and_call"],
-            bound="successor: one label of unbounded symbolic length (1..63) and content below ex., two labels over 5 (8) length shapes incl. 63-octet labels; predecessor: 8 (13) length shapes; every octet symbolic",
+            bound="successor: one label of unbounded symbolic length (1..63) and content below ex., two labels over 4 (8) length shapes incl. 63-octet labels; predecessor: 8 (13) length shapes; every octet symbolic",
             stubs=[], outside="names with > 2 labels below the origin"),
 ]
